@@ -89,6 +89,35 @@ func TestC08(t *testing.T) {
 			}
 		}
 	}
+	// a deletion that fails part-way (handler error or panic at height k) and its retry, then a restart:
+	// both datastore flavours (with the context-aware one the deletions sit in a write batch until the
+	// end of the sequential pass), both sides, flushed and unflushed headers
+	for _, ctxds := range []bool{false, true} {
+		for _, side := range []string{"tail", "head"} {
+			for _, batch := range []int{1, 64} {
+				for _, pnc := range []bool{false, true} {
+					cfg := cfgOf(24)
+					cfg.CtxDS, cfg.Batch, cfg.NH, cfg.DuringPct = ctxds, batch, 1+rng.Intn(2), 0
+					from, to, k := uint64(1), uint64(8), uint64(3+rng.Intn(4))
+					retry := storeh.D(k, to)
+					if side == "head" {
+						from, to = 5, 13
+						k = uint64(6 + rng.Intn(6))
+						retry = storeh.D(from, k+1) // the head stayed at k
+					}
+					fail := storeh.D(from, to)
+					fail.Fails = []storeh.Fail{{Handler: rng.Intn(cfg.NH), Height: k, Panic: pnc}}
+					ops := []storeh.Op{storeh.A(1, 2, 3, 4, 5, 6, 7, 8, 9, 10), storeh.A(11, 12), fail, retry, storeh.R(), storeh.A(13), storeh.O()}
+					if side == "head" {
+						ops[5] = storeh.A(k, k+1) // the deleted heights may come back only by a new Append
+					}
+					res := storeh.Run(t, rng, cfg, len(ops), storeh.Scripted(ops))
+					w.Add("CSeq ("+res.Term+")", res.Descr, fmt.Sprintf("partial/%v/%s/%d/%v/%d", ctxds, side, batch, pnc, k), true)
+					w.Count("partial_failure_then_retry", side)
+				}
+			}
+		}
+	}
 	// the parallel deletion path with a failing handler and the retry (relational oracle)
 	np := 6
 	if emit.Thorough() {
